@@ -85,6 +85,9 @@ def check(run):
         run.guard("C03.via.C08.1.state-coverage", cfg, lambda: _C08.rule_coverage(b2, F, cfg))
         b2p = run.borrow("C08", only=r"NetworkFilterV0", why="the included and the excluded domain sets (and their unions) have the same type: only their position on the wire tells them apart")
         run.guard("C03.via.C08.2.positional", cfg, lambda: _C08.rule_positional(b2p, F, cfg))
+        from . import C02 as _C02rc
+        brc = run.borrow("C02", only=r"regex-text-case|builders-", why="$match-case and its absence are options: every regex built for a rule (also the fallback set after a member failed to compile) ignores case exactly when the rule does")
+        run.guard("C03.via.C02.3.regex-translation", cfg, lambda: (_C02rc.rule_regex_case(brc, F, cfg), _C02rc.rule_translation(brc, F, cfg)))
 
 
 def option_arms(F):
